@@ -204,11 +204,24 @@ func runWorker(bin string, job *Job, gomaxprocs int, extraEnv ...string) (*Resul
 		}
 	}
 	if err != nil {
-		tail := out.String()
-		if len(tail) > 6000 {
-			tail = tail[len(tail)-6000:]
+		// show where it began (a Go panic / fatal error prints its reason first, then
+		// every goroutine) and how it ended
+		full := out.String()
+		head := ""
+		for _, mark := range []string{"\npanic: ", "\nfatal error: ", "panic: ", "fatal error: "} {
+			if i := strings.Index(full, mark); i >= 0 {
+				head = full[i:]
+				if len(head) > 4000 {
+					head = head[:4000]
+				}
+				break
+			}
 		}
-		return nil, fmt.Errorf("worker %d failed: %v\n%s", job.Worker, err, tail)
+		tail := full
+		if len(tail) > 3000 {
+			tail = tail[len(tail)-3000:]
+		}
+		return nil, fmt.Errorf("worker %d failed: %v (full output: %s)\n%s\n[...]\n%s", job.Worker, err, logPath, head, tail)
 	}
 	if job.Mode == "replay" || job.Mode == "minimise" {
 		return nil, nil
@@ -471,6 +484,14 @@ func check(prop, tier string) int {
 		wg.Wait()
 		for w := range jobs {
 			if errs[w] != nil {
+				// keep the dead worker's whole output: the build directory is about to go
+				if data, rerr := os.ReadFile(jobs[w].Out + ".log"); rerr == nil {
+					os.MkdirAll(replayDir, 0o755)
+					keep := filepath.Join(replayDir, fmt.Sprintf("trouble-%s-%s-worker%d.log", prop, tier, w))
+					if os.WriteFile(keep, data, 0o644) == nil {
+						fmt.Fprintf(os.Stderr, "vrun: the worker's full output is kept in %s\n", keep)
+					}
+				}
 				trouble("%v", errs[w])
 			}
 			if results[w] != nil {
